@@ -41,6 +41,10 @@ WToolUnzckFaulty(status, outEq) == (status = 0 => outEq) /\ UNCHANGED wvars
 \* file the tool was asked to produce exists and is exactly what a fault-free run produces
 WToolFaulty(status, outOk) == (status = 0 => outOk) /\ UNCHANGED wvars
 
+\* Beyond the listed properties (reported as specification drift, not as a violation): a header-only run
+\* (ZCK_NO_WRITE) writes nothing and computes exactly the header the real run of the same content and configuration writes
+WNoWrite(ret, hdrEq, outEmpty) == (ret = 1 => (hdrEq /\ outEmpty)) /\ UNCHANGED wvars
+
 \* ---------------------------------------------------------------- C16
 \* A finished run: cfg and content identify what was written, seg how; file = digest of the produced
 \* file; chunks = data chunks in order as [ulen, end, fromEnd, id] (id = digest of checksum + stored bytes).
